@@ -4,6 +4,7 @@ import (
 	"go/ast"
 	"go/types"
 	"sort"
+	"strconv"
 	"strings"
 
 	"golang.org/x/tools/go/packages"
@@ -318,6 +319,7 @@ func BaseName(fn *ssa.Function) string {
 // field of that struct with the same type is missing.
 
 var baselineFields = map[string]map[string]string{} // "<pkgpath>.<Type>" -> field -> type string
+var baselineFieldPos = map[string]map[string]int{}  // "<pkgpath>.<Type>" -> field -> position in the struct
 
 // BaselineFieldLines lists the field lines for -genbaseline.
 func BaselineFieldLines(pkgs []*packages.Package) []string {
@@ -338,7 +340,7 @@ func BaselineFieldLines(pkgs []*packages.Package) []string {
 			}
 			for i := 0; i < st.NumFields(); i++ {
 				f := st.Field(i)
-				out = append(out, "field\t"+p.PkgPath+"."+name+"."+f.Name()+"\t"+types.TypeString(f.Type(), func(q *types.Package) string { return q.Path() }))
+				out = append(out, "field\t"+p.PkgPath+"."+name+"."+f.Name()+"\t"+types.TypeString(f.Type(), func(q *types.Package) string { return q.Path() })+"\t"+strconv.Itoa(i))
 			}
 		}
 	})
@@ -388,10 +390,27 @@ func fieldRenames(owner *types.Named) map[string]string {
 			fresh[t] = append(fresh[t], name)
 		}
 	}
+	pos := baselineFieldPos[owner.Obj().Pkg().Path()+"."+owner.Obj().Name()]
+	curPos := map[string]int{}
+	for i := 0; i < st.NumFields(); i++ {
+		curPos[st.Field(i).Name()] = i
+	}
 	for t, g := range gone {
-		if len(g) == 1 && len(fresh[t]) == 1 {
-			m[fresh[t][0]] = g[0]
-			nlog("rename: field %s.%s is %s of the pinned tree", owner.Obj().Name(), fresh[t][0], g[0])
+		f := fresh[t]
+		if len(g) != len(f) || len(g) == 0 {
+			continue
+		}
+		if len(g) > 1 {
+			// several fields of one type renamed together: pair them in declaration order
+			if pos == nil {
+				continue
+			}
+			sort.Slice(g, func(i, j int) bool { return pos[g[i]] < pos[g[j]] })
+			sort.Slice(f, func(i, j int) bool { return curPos[f[i]] < curPos[f[j]] })
+		}
+		for i := range g {
+			m[f[i]] = g[i]
+			nlog("rename: field %s.%s is %s of the pinned tree", owner.Obj().Name(), f[i], g[i])
 		}
 	}
 	return m
